@@ -257,40 +257,32 @@ func (w *world) forgeCommit(t *kernel.Tape, kind int, h uint64, id types.BlockID
 			out.kind += "-relabelled"
 		}
 	case fcDupValidator:
-		src := -1
+		// one validator's genuine precommit in every slot; the validator alone
+		// must not be a quorum; the largest such validator more often than not
+		src, best := -1, int64(0)
+		var cands []int
 		for i := 0; i < n; i++ {
-			if signers[i] {
-				src = i
-				if t.Bool(1, 2) {
-					break
-				}
+			if !signers[i] {
+				continue
+			}
+			one := make([]bool, n)
+			one[i] = true
+			if moreThanTwoThirds(w.powerOf(vals, one), tot) {
+				continue
+			}
+			cands = append(cands, i)
+			if _, v := vals.GetByIndex(i); v.VotingPower > best {
+				best, src = v.VotingPower, i
 			}
 		}
-		if src < 0 || n < 2 {
+		if len(cands) == 0 || n < 2 {
 			return w.forgeCommit(t, fcNonValidators, h, id, forCanon)
 		}
-		if forCanon {
-			// the duplicated validator alone must not be a quorum
-			s := make([]bool, n)
-			s[src] = true
-			if moreThanTwoThirds(w.powerOf(vals, s), tot) {
-				for i := 0; i < n; i++ {
-					s2 := make([]bool, n)
-					s2[i] = true
-					if !moreThanTwoThirds(w.powerOf(vals, s2), tot) {
-						src = i
-						break
-					}
-				}
-				s = make([]bool, n)
-				s[src] = true
-				if moreThanTwoThirds(w.powerOf(vals, s), tot) {
-					return w.forgeCommit(t, fcNonValidators, h, id, forCanon)
-				}
-			}
+		if t.Bool(1, 3) {
+			src = cands[t.Int(len(cands))]
 		}
 		orig := sign(src, h, round, types.VoteTypePrecommit, id, w.chainID)
-		rewrite := t.Bool(1, 2)
+		rewrite := t.Bool(1, 3)
 		for i := 0; i < n; i++ {
 			v := orig.Copy()
 			if rewrite && i != src {
